@@ -281,7 +281,7 @@ MatchOf(x, ids, doc, c) ==
        ELSE IF HasTextE(v, x.c) \/ v.t = "A" THEN TriOf(BatchHits(x.s, v, x.c) >= c)
        ELSE "M"
   ELSE IF x.t = "matrix" THEN SolveMatrixRows(x, ids, doc, "of", c)
-  ELSE LET r == Solve(x, ids, doc) IN IF r = "T" /\ c > 1 THEN "F" ELSE r
+  ELSE LET r == Solve(x, ids, doc) IN IF r = "T" /\ c > 1 THEN "M" ELSE r
 
 (* one matrix row against the cache: cells in column order, first non-true ends the row *)
 SolveRow(row, cols, ids, doc, i, vals) ==
